@@ -303,7 +303,8 @@ WS_TRAIL = [[], [], [], [32], [9], [32, 32]]
 def gen_jsonl(rng, tier):
     mode = rng.choice(JSONL_MODES) if rng.random() < 0.85 else rng.choice(SBCS_MODES)
     ie = rng.random() < 0.6
-    lone_cr = rng.random() < 0.05
+    # text modes: the mirror clause is checked (and proved) for every text, lone \r included
+    lone_cr = rng.random() < (0.15 if mode in TEXT_MODES else 0.05)
     nlines = rng.choice([0, 1, 1, 2, 3, 4, 5, 6, 8])
     p_bad = rng.choice([0.0, 0.0, 0.15, 0.4])
     p_blank = rng.choice([0.0, 0.2, 0.5])
